@@ -1,0 +1,11 @@
+//go:build verif
+
+// Contracts for the verification machinery in /verif (comment-only; compiled only with -tags verif).
+
+package document
+
+// caller-supplied additional operations are assumed well-formed (non-nil, sane anchoring times)
+//@ func GetResolutionOptions
+//@   trusted
+//@   results o, err
+//@   ensures err == nil ==> (forall q int :: 0 <= q && q < len(o.AdditionalOperations) ==> o.AdditionalOperations[q] != nil && o.AdditionalOperations[q].TransactionTime < 4611686018427387904)
